@@ -61,6 +61,6 @@ pub fn iso_getters<S: Src>(s: &mut S, ylo: i32, yhi: i32) {
 crate::harnesses! { REGISTRY;
     c01_iso_getters_2000 [unwind 14] = |s| iso_getters(s, 1999, 2001);
     c01_iso_getters_1970 [unwind 14] = |s| iso_getters(s, 1969, 1972);
-    c01_iso_getters_1900 [unwind 14] = |s| iso_getters(s, 1899, 1901);
+    c01_iso_getters_1900 [unwind 14] = |s| iso_getters(s, 1899, 1904);
     c01_iso_getters_neg [unwind 14] = |s| iso_getters(s, -1, 1);
 }
